@@ -4,7 +4,7 @@ from __future__ import annotations
 from ..evalr import FuncV, Obj
 from ..spec import GAMMAS, SCORES, POS, NEG, EP, EN, returns, raises, unmodelled_text, pc_text
 from ..terms import (App, Const, Num, Sym, Tup, TRUE, FALSE, same, show, sub, add, mul, div, neg, subst, atoms_of, to_poly, mk_num, negate, compare,
-                     cmp0)
+                     cmp0, V)
 from ..simp import mk_app
 
 LEVEL = "other"
@@ -350,14 +350,31 @@ def find_root(ctx, chk):
             chk.violation("R06.4", ROOTQ, inst + ":precondition", "raise paths: %s" % [pc_text(o)[:120] for o in rs], "ValueError unless f(xa) <= 0 <= f(xe)", ctx.where(ROOTQ))
         seen = {}
         allok = True
+        lo_slot, hi_slot = LO_, HI_
         for o in rets:
             its = [e for e in o.events if e["kind"] == "while_iter"]
             if not its:
                 continue
             it = its[0]
-            a0, e0 = it["pre"].get(LO_), it["pre"].get(HI_)
-            a1, e1 = it["post"].get(LO_), it["post"].get(HI_)
-            if a0 is None or e0 is None or a1 is None or e1 is None:
+            # the bracket ends by ROLE: the loop-carried slots (names, or fields of a loop-carried record) that are
+            # initialised with the lower and the upper end
+            def _slots(d):
+                r = {}
+                for n_, v_ in (d or {}).items():
+                    if isinstance(v_, Obj) and getattr(v_, "nt_fields", None):
+                        for f_ in v_.nt_fields:
+                            r["%s.%s" % (n_, f_)] = v_.attrs.get(f_)
+                    else:
+                        r[n_] = v_
+                return r
+            s_init, s_pre, s_post = _slots(it.get("init")), _slots(it["pre"]), _slots(it["post"])
+            lo_s = [k for k, v_ in s_init.items() if isinstance(v_, V) and same(v_, XA)]
+            hi_s = [k for k, v_ in s_init.items() if isinstance(v_, V) and same(v_, XE)]
+            if len(lo_s) == 1 and len(hi_s) == 1:
+                lo_slot, hi_slot = lo_s[0], hi_s[0]
+            a0, e0 = s_pre.get(lo_slot), s_pre.get(hi_slot)
+            a1, e1 = s_post.get(lo_slot), s_post.get(hi_slot)
+            if not all(isinstance(x_, V) for x_ in (a0, e0, a1, e1)):
                 chk.unknown("R06.4", "loop variables of _find_root not recognised")
                 continue
             xm = div(add(a0, e0), Const(2))
@@ -395,9 +412,11 @@ def find_root(ctx, chk):
             v = o.value
             fin = [a for a in atoms_of(v) if isinstance(a, Sym) and a.name.startswith("afterwhile:")]
             names = sorted(a.name.split("#")[0] for a in fin)
-            if isinstance(v, (Num, App, Sym)) and names == sorted(["afterwhile:" + LO_, "afterwhile:" + HI_]) and same(v, div(add(fin[0], fin[1]), Const(2))):
+            if not isinstance(v, V):
+                chk.unknown("R06.4", "%s: the result is not a value the evaluator models: %r" % (inst, v))
+            elif isinstance(v, (Num, App, Sym)) and names == sorted(["afterwhile:" + lo_slot, "afterwhile:" + hi_slot]) and same(v, div(add(fin[0], fin[1]), Const(2))):
                 chk.hold("R06.4", inst + ":result", "returns the midpoint of the final bracket")
-            elif not (set(names) <= {"afterwhile:" + LO_, "afterwhile:" + HI_}):
+            elif not (set(names) <= {"afterwhile:" + lo_slot, "afterwhile:" + hi_slot}):
                 chk.unknown("R06.4", "%s: the result is built from loop state other than the bracket ends: %s" % (inst, show(v, 120)))
             else:
                 chk.violation("R06.4", ROOTQ, inst + ":result", show(v, 120), "(xa + xe)/2 of the final bracket", ctx.where(ROOTQ))
